@@ -26,7 +26,8 @@ TB_ROPE_OBS = [
     "unit rope_obs: assume_specification for str::starts_with::<P> / str::ends_with::<P> (generic over Pattern: the answer is an uninterpreted function of (string, pattern)) with three axioms fixing it for the instances used - "
     "`&str` / `&&str` prefix patterns: byte-prefix test (std's implementation is `haystack.as_bytes().starts_with(needle.as_bytes())`), `char` suffix pattern: the string is non-empty and its last char is the pattern; "
     "<str as Index<I>>::index (exposes vstd's own index_postcondition); axiom: `==` on [u8] slices is equality of the byte sequences (std's PartialEq for slices)",
-    "rule A1 (contracts/rope_obs.py): `X.iter().all(|(s, _)| E)` -> a `for` loop accumulating the conjunction (E has no side effects)",
+    "rule A1 (contracts/rope_obs.py): `X.iter().all(|(s, _)| E)` -> a `for` loop accumulating the conjunction (E has no side effects); rule P3: `let &(x, _) = &E[i];` -> `let x = E[i].0;`",
+    "axiom: `==` on str is equality of the bytes (std's PartialEq for str; used by the single-piece arm of Rope == Rope)",
 ]
 
 from vx.kstages import k1_replace_inv, k2_eq_hash, k4_with_indices, k5_codec_cross  # noqa: E402
@@ -66,12 +67,12 @@ PLAN = {
                  "Rope's two range-bound helpers are total (found and fixed an overflow at usize::MAX); "
                  "PotentialTokens::next (OriginalSource's tokenizer) slices only in range on char boundaries, always makes progress and returns exactly the next consecutive slice, for every UTF-8 text. "
                  "Rope::{new, add, append, len, get_byte, get_byte_slice, byte_slice (on valid ranges), get_byte_slice_impl} never overflow, underflow or index out of range on any rope satisfying the representation invariant, for every range bound (unit rope_core). "
-                 "Rope::{is_empty, ends_with, starts_with} (unit rope_obs) never slice a str off a char boundary or out of range and terminate, for every pair of ropes however divided into pieces (found and fixed a char-boundary panic in starts_with this way). "
+                 "Rope::{is_empty, ends_with, starts_with} and Rope == Rope / str / &str (units rope_obs, rope_core) never slice a str off a char boundary or out of range and terminate, for every pair of ropes however divided into pieces (found and fixed a char-boundary panic in starts_with this way). "
                  "JSON parsers, chunk streaming and the remaining Rope methods are not decided.",
         "note": "Partial: only the decoder/encoder half of the property. Trusted: Verus/Z3/vstd, extraction rules, assume_specifications listed in evidence.",
         "trusted_base": TB_VERUS + TB_CODEC_ENC + TB_ROPE + TB_ROPE_OBS,
         "assumptions": ["mappings string shorter than u32::MAX - 1 bytes", "encoder input sorted by generated line (any u32 values)", "ReplaceSource: positions on char boundaries or beyond the end, inner text < 4 GiB; in this view the total length of the rope built by ReplaceSource::rope is assumed to fit usize (C05's view proves it from the spliced text fitting usize)"],
-        "not_covered": ["SourceMap::from_json/from_slice/from_reader (simd-json)", "every stream_chunks implementation", "Rope::from_iter / lines / char_indices / PartialEq<Rope> / PartialEq<&str> / hash", "ReplaceSource::stream_chunks / map"],
+        "not_covered": ["SourceMap::from_json/from_slice/from_reader (simd-json)", "every stream_chunks implementation", "Rope::from_iter / lines / char_indices / hash", "ReplaceSource::stream_chunks / map"],
         "design_ref": "DESIGN.md §4/C17",
     },
     "C11": {
@@ -137,7 +138,7 @@ PLAN = {
         "level": "proof",
         "witness": rope_witness,
         "verus_units": ["rope_core", "rope_obs", "rope_bounds"],
-        "technique": "contract-based deductive verification (Verus) of the real Rope constructors, mutators, byte lookup, slicing, rendering and the observers is_empty / ends_with / starts_with / == str against the flat string the pieces denote, under a representation invariant, extracted mechanically each run",
+        "technique": "contract-based deductive verification (Verus) of the real Rope constructors, mutators, byte lookup, slicing, rendering and the observers is_empty / ends_with / starts_with / == (Rope, str, &str) against the flat string the pieces denote, under a representation invariant, extracted mechanically each run",
         "claim": "Partial, unbounded proof: with bytes() = concatenation of the pieces and the invariant `every piece records its start offset, total fits usize`, the real Rope::new / From<&str> / add / append "
                  "establish or preserve the invariant and denote exactly the concatenated text for every piece division (all four representation combinations of append, shared piece tables through Rc::make_mut); "
                  "len() is the text's length; get_byte(i) is Some(text[i]) exactly for i < len; get_byte_slice_impl / get_byte_slice / byte_slice return the sub-text exactly for ranges that are in order, in bounds and on char "
@@ -146,11 +147,12 @@ PLAN = {
                  "Unit rope_obs: is_empty() is true exactly when the denoted text is empty; ends_with(c) exactly when the text is non-empty and its last character is c (trailing empty pieces skipped); "
                  "starts_with(other) exactly when other's text is a byte prefix of this text, in all four representation combinations, for every division of either text into pieces including empty pieces and comparison windows that "
                  "cut multi-byte characters, with termination of the two-cursor loop (five genuine defects found and fixed in these three functions and in Rope == Rope, DESIGN 7). "
-                 "Not decided: from_iter, lines, char_indices, Rope == Rope and Rope == &str (the twin's search covers them), hash.",
+                 "Rope == Rope (the two-cursor loop over differently divided texts) and Rope == &str answer exactly whether the two denoted texts are equal, with every byte-slice window in range and termination. "
+                 "Not decided: from_iter, lines, char_indices (the twin's search observes char_indices), hash.",
         "note": "Partial. Trusted: Verus/Z3/vstd, extraction rules, the assume_specifications and two axioms listed in the evidence; get_byte additionally relies on the pinned std's binary_search_by returning the last match.",
         "trusted_base": TB_VERUS + TB_ROPE + TB_ROPE_OBS,
         "assumptions": ["total rope length fits usize (requires of add/append)", "binary_search_by returns the last of several equal elements (pinned std; used by get_byte only)"],
-        "not_covered": ["Rope::from_iter (iterator adapter chain)", "Lines / CharIndices iterators", "Hash", "PartialEq<Rope> and PartialEq<&str> for Rope (searched by the twin, not under contract)"],
+        "not_covered": ["Rope::from_iter (iterator adapter chain)", "Lines / CharIndices iterators", "Hash"],
         "design_ref": "DESIGN.md §4/C16",
     },
     "C14": {
